@@ -214,11 +214,31 @@ ROUND8 = {
  "C19": "reconnect delay reset unconditional (from C14); TTL range exact (from C09)",
  "C20": "a received message is printed before any other socket operation or return (forward walk from each RecvMsg, success guard)",
 }
+# rule families added after seeded round 9 (DESIGN 8.5, round 9)
+ROUND9 = {
+ "C01": "one delivery per context in the SUB receiver (from C06)",
+ "C02": "length prefix read completely (from C01)",
+ "C03": "one request-id counter (single draw site on the socket's counter, who-may-write); core send contract (from C17)",
+ "C04": "transport Send does not rewrite the message (from C17)",
+ "C06": "MakeUnique copies before releasing (from C01)",
+ "C07": "raw surveyor fan-out offered to every entry (fan-out completeness/no-bypass)",
+ "C08": "E5 follows message variables captured by deferred closures (per-world cell contents, release at RunDefers)",
+ "C09": "allocator freshness (from C13); raw surveyor fan-out (from C07)",
+ "C10": "core Close waits for no goroutine (no channel receive / WaitGroup / Cond wait reachable synchronously inside the core)",
+ "C11": "forwarded and delivered copies are separate (from C08)",
+ "C12": "E11 closer-leak typestate: acquired listeners/connections/files closed or handed on on every error-nil path (aliases, wrappers, keeps-parameter summaries of module callees)",
+ "C13": "callee of every hook call traces to loads of socket.pipehook only; pipe provenance fields have no writer after construction",
+ "C16": "accept-loop pause is a compile-time constant <= 100ms; attach under the pipe lock (from C13)",
+ "C17": "REQ SendMsg error returns after the wait are under 'message still parked'; E5 cell modelling",
+ "C20": "only the count ends a send loop with success; main calls Run(args[1:]) unconditionally before any exit",
+}
 for k, (t, x) in EXTRA.items():
     tech, text, note, ref = CLAIMED[k]
     imp = IMPORTS.get(k)
     r67 = ROUND67.get(k)
     r8 = ROUND8.get(k)
+    if ROUND9.get(k):
+        r8 = (r8 + "; " if r8 else "") + "after round 9: " + ROUND9[k]
     CLAIMED[k] = (tech + t + ("; shared mechanisms decided where they are anchored and imported: " + imp if imp else "") + ("; added after seeded rounds 6-7: " + r67 if r67 else "") + ("; added after seeded round 8: " + r8 if r8 else ""), text + x, note, ref)
 
 NOT_YET = "check not built yet (work in progress; planned static rules in DESIGN.md section 4)"
